@@ -1,8 +1,8 @@
 """Catalog of concrete plan shapes (the case split of the E1 registry harnesses)."""
 from world import Shape
 
-def S(name, n, edges, roles, out):
-    return Shape(name, n, edges, roles, out)
+def S(name, n, edges, roles, out, order=None):
+    return Shape(name, n, edges, roles, out, order)
 
 A, D = "a", "d"
 QUICK = [
@@ -12,7 +12,6 @@ QUICK = [
     S("fork_unstored_mid", 4, [(0, 1, A), (1, 2, A), (1, 3, A)], ["src", "call", "store", "store"], 3),
     S("out_unstored", 3, [(0, 1, A), (1, 2, A)], ["store", "store", "call"], 2),
     S("dep_edge", 3, [(0, 1, A), (0, 2, D), (1, 2, A)], ["store", "store", "store"], None),
-    S("dep_source_2pred", 4, [(0, 2, D), (1, 2, D), (2, 3, A)], ["call", "call", "src", "store"], 3),
 ]
 THOROUGH = QUICK + [
     S("diamond_unstored_mid", 4, [(0, 1, A), (0, 2, A), (1, 3, A), (2, 3, A)], ["store", "call", "call", "store"], 3),
@@ -34,6 +33,9 @@ EXTRA = [
     S("reg_literal", 3, [(0, 1, D), (1, 2, A)], ["store", "slit", "store"], 2),
     S("reg_literal_first", 3, [(0, 1, A), (0, 2, A), (1, 2, A)], ["slit", "store", "call"], 2),
     S("dep_source_chain", 4, [(0, 1, D), (1, 2, D), (2, 3, A)], ["call", "src", "src", "store"], 3),
+    # the same with the downstream source created / registered BEFORE the one it depends on
+    S("dep_source_chain_rev", 4, [(0, 1, D), (1, 2, D), (2, 3, A)], ["call", "src", "src", "store"], 3, order=[0, 2, 1, 3]),
+    S("lit_mid_rev", 3, [(0, 1, D), (1, 2, A)], ["store", "lit", "store"], 2, order=[1, 0, 2]),
 ]
-EXTRA_QUICK = ["lit_mid", "reg_literal"]
+EXTRA_QUICK = ["lit_mid", "reg_literal", "dep_source_2pred"]
 BY_NAME = {s.name: s for s in THOROUGH + EXTRA}
